@@ -261,6 +261,19 @@ func (r *reifier) emit(n *sdf.VerifShape) string {
 		body = fmt.Sprintf("RShell3 %s %s", kid(0), qd(n.F[0]))
 	case "Screw":
 		body = fmt.Sprintf("RScrew %s %s %s", kid(0), qds(n.F), z(0))
+	case "FlatFlankCam":
+		body = "qFlatFlankCam " + qds(n.F)
+	case "ThreeArcCam":
+		body = "qThreeArcCam " + qds(n.F)
+	case "Flange1":
+		body = "qFlange1 " + qds(n.F)
+	case "ArcSpiral":
+		body = "qArcSpiral " + qds(n.F)
+	case "Rack2":
+		if !finiteAll(box2s(n.Box2)) {
+			r.bad = "non-finite rack box"
+		}
+		body = fmt.Sprintf("RRack2 %s %s (qb2 %s)", kid(0), qds(n.F), qds(box2s(n.Box2)))
 	default:
 		r.bad = "hook returned an unknown constructor " + n.Kind
 		body = "?"
@@ -349,6 +362,25 @@ func rigid(m []float64, n int) bool {
 		}
 	}
 	return true
+}
+
+func ratSum(xs ...float64) *big.Rat {
+	s := new(big.Rat)
+	for _, x := range xs {
+		s.Add(s, rat(x))
+	}
+	return s
+}
+
+func ratLess(a, b *big.Rat) bool { return a.Cmp(b) < 0 }
+
+// camOK mirrors cam_okb (Sdf/ReifyCheck.v), exactly: 0 < d, 0 <= b, 0 <= n, |b - n| < d
+func camOK(d, b, n float64) bool {
+	if !(d > 0 && b >= 0 && n >= 0) {
+		return false
+	}
+	diff := new(big.Rat).Sub(rat(b), rat(n))
+	return ratLess(diff, rat(d)) && ratLess(new(big.Rat).Neg(diff), rat(d))
 }
 
 func meshOK(n *sdf.VerifShape) string {
@@ -609,6 +641,17 @@ func (r *reifier) wfOf(n *sdf.VerifShape) string {
 		w = or(first(n.Kids[0]), cond(n.F[0] >= 0, "negative height"), cond(n.F[1] == 0 || either(n.Kids[0]), class))
 	case "Loft":
 		w = or(first(n.Kids[0]), first(n.Kids[1]), cond(n.F[1] == 0 || (either(n.Kids[0]) && either(n.Kids[1])), class))
+	case "FlatFlankCam", "Flange1":
+		w = cond(camOK(n.F[0], n.F[1], n.F[2]), "needs 0 < distance, radii >= 0, |radius difference| < distance")
+	case "ThreeArcCam":
+		w = or(cond(camOK(n.F[0], n.F[1], n.F[2]), "needs 0 < distance, radii >= 0, |radius difference| < distance"),
+			cond(ratLess(ratSum(n.F[1], n.F[0], n.F[2]), new(big.Rat).Mul(big.NewRat(2, 1), rat(n.F[3]))), "flank radius not above (base + distance + nose)/2"))
+	case "ArcSpiral":
+		w = cond(n.F[4] >= 0, "negative band half-width d")
+	case "Rack2":
+		k, bb := n.Kids[0], n.Box2
+		w = or(first(k), cond(k.Kind == "Mesh2" && bb.Min.X <= bb.Max.X && bb.Min.Y <= bb.Max.Y && bb.Min.X <= -n.F[1] && n.F[1] <= bb.Max.X &&
+			bb.Min.Y <= k.Box2.Min.Y && k.Box2.Max.Y <= bb.Max.Y, "tooth is not a polygon mesh whose y range lies in the rack box, or the rack box does not span [-length, length]"))
 	default:
 		w = "unknown constructor " + n.Kind
 	}
